@@ -291,50 +291,58 @@ fn clause_for_qrv_is_once() {
     core::mem::forget(nb);
 }
 
-/// Clause for Each (C14): a stub without patterns is rejected at construction; otherwise its patterns reach the sink in
-/// call order, each once (C01).
-//@K props=C14,C01 tier=quick label=full feat=std fn=<EachasClause>::deconstruct,Each::call
-#[kani::proof]
-#[kani::unwind(5)]
-fn each_deconstruct() {
-    struct OrderSink([usize; 4], usize);
-    impl clause::term::Sink for OrderSink {
-        fn push(&mut self, _info: MockFnInfo, builder: DynCallPatternBuilder) -> Result<(), String> {
-            self.0[self.1] = builder.current_response_index; // identity tag set below
-            self.1 += 1;
-            core::mem::forget(builder);
-            Ok(())
-        }
+struct OrderSink([usize; 4], usize);
+impl clause::term::Sink for OrderSink {
+    fn push(&mut self, _info: MockFnInfo, builder: DynCallPatternBuilder) -> Result<(), String> {
+        self.0[self.1] = builder.current_response_index; // identity tag set by the harness
+        self.1 += 1;
+        core::mem::forget(builder);
+        Ok(())
     }
-    let n: u8 = kani::any();
-    kani::assume(n <= 3);
-    let mut each: Each<F8> = Each::new();
-    each.patterns.reserve(3);
-    let mut i = 0u8;
-    while i < n {
-        {
-            let d = each.call(&|_| {});
-            core::mem::forget(d);
-        }
-        each.patterns[i as usize].current_response_index = 100 + i as usize;
-        i += 1;
-    }
-    assert!(each.patterns.len() == n as usize);
-    let mut sink = OrderSink([0; 4], 0);
-    let r = each.deconstruct(&mut sink);
-    if n == 0 {
-        assert!(r.is_err());
-        assert!(sink.1 == 0);
-    } else {
-        assert!(r.is_ok());
-        assert!(sink.1 == n as usize);
-        let mut j = 0;
-        while j < n as usize {
-            assert!(sink.0[j] == 100 + j);
-            j += 1;
-        }
-    }
-    kani::cover!(n == 0);
-    kani::cover!(n == 3);
-    core::mem::forget(r);
 }
+
+macro_rules! each_harness {
+    ($name:ident, $n:expr) => {
+        /// Clause for Each (C14, C01; K-bnd in the number of patterns of the stub): a stub without patterns is rejected at
+        /// construction; otherwise Each::call appends and deconstruct hands the patterns to the sink in call order, each once.
+        #[kani::proof]
+        #[kani::unwind(6)]
+        fn $name() {
+            const N: usize = $n;
+            let mut each: Each<F8> = Each::new();
+            each.patterns.reserve(N);
+            let mut i = 0;
+            while i < N {
+                {
+                    let d = each.call(&|_| {});
+                    core::mem::forget(d);
+                }
+                assert!(each.patterns.len() == i + 1);
+                each.patterns[i].current_response_index = 100 + i;
+                i += 1;
+            }
+            let mut sink = OrderSink([0; 4], 0);
+            let r = each.deconstruct(&mut sink);
+            if N == 0 {
+                assert!(r.is_err());
+                assert!(sink.1 == 0);
+            } else {
+                assert!(r.is_ok());
+                assert!(sink.1 == N);
+                let mut j = 0;
+                while j < N {
+                    assert!(sink.0[j] == 100 + j);
+                    j += 1;
+                }
+            }
+            kani::cover!(true);
+            core::mem::forget(r);
+        }
+    };
+}
+//@K props=C14,C01 tier=quick label=bnd feat=std fn=<EachasClause>::deconstruct,Each::call bound=patterns=0
+each_harness!(each_n0, 0);
+//@K props=C14,C01 tier=quick label=bnd feat=std fn=<EachasClause>::deconstruct,Each::call bound=patterns=2
+each_harness!(each_n2, 2);
+//@K props=C14,C01 tier=thorough label=bnd feat=std fn=<EachasClause>::deconstruct,Each::call bound=patterns=3 timeout=1200
+each_harness!(each_n3, 3);
